@@ -95,15 +95,16 @@ class SelWorld:
         self.relay_port = {l: RELAY_PORT + i for i, l in enumerate(relays)}
         relay = "tcp:10.9.9.9:%d" % RELAY_PORT if relays else None
         relay_r = "tcp:10.9.9.10:%d" % (RELAY_PORT + 1) if len(relays) > 1 else relay
-        self.S = transit.TransitSender(relay, reactor=reactor)
-        self.R = transit.TransitReceiver(relay_r, reactor=reactor)
+        nl = scripts.get("_no_listen", ())       # parties created with no_listen=True (configuration rides in `scripts`)
+        self.S = transit.TransitSender(relay, no_listen="S" in nl, reactor=reactor)
+        self.R = transit.TransitReceiver(relay_r, no_listen="R" in nl, reactor=reactor)
         self.S.set_transit_key(KEY)
         self.R.set_transit_key(KEY)
         hs, hr = [], []
         self.S.get_connection_hints().addCallback(hs.append)
         self.R.get_connection_hints().addCallback(hr.append)
-        self.portS = [h["port"] for h in hs[0] if h["type"] == "direct-tcp-v1"][0]
-        self.portR = [h["port"] for h in hr[0] if h["type"] == "direct-tcp-v1"][0]
+        self.portS = ([h["port"] for h in hs[0] if h["type"] == "direct-tcp-v1"] + [None])[0]
+        self.portR = ([h["port"] for h in hr[0] if h["type"] == "direct-tcp-v1"] + [None])[0]
         for l in relays:
             f = protocol.Factory.forProtocol(type("RelayStub_" + l, (RelayStub,), {"waiting": {}}))
             reactor.listenTCP(self.relay_port[l], f)
@@ -404,6 +405,9 @@ CONFIGS = {
     "three": ({"a": "s2r", "b": "r2s", "c": "relay"}, {}),
     # each party has its own relay: two relay contenders of equal priority on both sides
     "two_relays": ({"c": "relay", "d": "relay"}, {}),
+    # without a listener on one side (no_listen=True): that party can only dial
+    "sender_no_listen": ({"a": "s2r", "c": "relay", "y": "wrongkeyR"}, {"y": ["SHx", "go"], "_no_listen": ("S",)}),
+    "receiver_no_listen": ({"b": "r2s", "c": "relay", "x": "wrongkeyS"}, {"x": ["RHx"], "_no_listen": ("R",)}),
 }
 
 INVARIANTS = ["AtMostOneGo", "GoOnlyAfterRH", "ReceiverNeedsGo", "SameLink", "KeyHoldersOnly", "ResultIsRecords", "OthersClosed",
@@ -460,6 +464,12 @@ def replay_behaviour(tid, kinds, scripts, states, rng):
                         d.append("%s.%s: spec=%s real=%s" % (l, p, ms, rs))
             for p in ("S", "R"):
                 if st["result"][p] != w.result_link(p):
+                    # a party without a listener has nothing left to wait for once every connection it dialled is down:
+                    # connect() fails at once, where the model (whose parties always have the listener as a last contender)
+                    # waits for the deadline - an abstraction of the model, not a difference of behaviour
+                    if p in scripts.get("_no_listen", ()) and st["result"][p] == "-" and w.result_link(p) == "failed" and \
+                            all(w.coarse(st["st"][l][p]) in ("down", "-") for l in kinds):
+                        continue
                     d.append("result.%s: spec=%s real=%s" % (p, st["result"][p], w.result_link(p)))
             if d:
                 drift = {"step": i, "action": la, "diff": d[:6]}
@@ -524,7 +534,7 @@ def run(prop, tier):
                 if drift:
                     ndrift += 1
                     if len(cov["drift"]) < 8:
-                        cov["drift"].append(dict(drift, tid=tid, config=name))
+                        cov["drift"].append(dict(drift, tid=tid, config=name, origin=origin, schedule=w.schedule[:drift["step"] + 1]))
         path = wd.file("obs.ndjson")
         with open(path, "w") as f:
             for rec in records:
